@@ -417,6 +417,15 @@ def family(rng, kind, layout, k):
                     fac = np.where(pick & (r > 0), rng.uniform(1.02, 1.3, a.shape) / np.where(r > 0, r, 1.0), 1.0)
                     g[pair[0]], g[pair[1]] = a * fac, b * fac
                 g["mkind"] = "outside-unit-disc"
+    # complete variance density but missing moments at some bins (a buoy that reports e(f) only there)
+    if kind == "1d":
+        for g in out:
+            if rng.uniform() < 0.3:
+                for nm in ("a1", "b1", "a2", "b2"):
+                    a = np.array(g[nm], dtype=float)
+                    a[rng.uniform(0, 1, a.shape) < 0.2] = np.nan
+                    g[nm] = a
+                g["mkind"] = str(g.get("mkind", "")) + "+nan-moments"
     # NaN bins in some members
     for g in out:
         if rng.uniform() < 0.4:
